@@ -136,6 +136,7 @@ def run_case(case, R):
                 return
         await vtime.settle(loop)
         last = g0
+        high_water = g0
         n_expected = 0
         sent = []            # (nonce gsn, payload) genuine notifications sent so far, for replays
         for idx, ev in enumerate(events):
@@ -195,15 +196,19 @@ def run_case(case, R):
             elif kind == "regular":
                 g = (last + ev[3] % 5) & 0xFFFF
                 msg = regular_adv(g, cn=cn)
+            elif kind == "regular-stale":
+                # a plain advertisement (nothing authenticates those) that names an older state number: a delayed duplicate, or a forgery
+                g = max(1, last - 1 - ev[3] % 40)
+                msg = regular_adv(g, cn=cn)
             else:
                 raise AssertionError(kind)
             for m in (variants if variants is not None else [msg]):
                 before_calls = len(calls)
                 before_state = pairing.description.state_num if pairing.description else None
                 before_avail = (len(avail), pairing.is_available)
-                Cache.fail_writes = bool(case.get("cache_fails")) and kind != "regular"
+                Cache.fail_writes = bool(case.get("cache_fails")) and not kind.startswith("regular")
                 err = feed(m)
-                if case.get("twice") and err is None and kind != "regular":
+                if case.get("twice") and err is None and not kind.startswith("regular"):
                     # scanners report the same advertisement several times in quick succession: the repeat arrives before the loop runs again
                     err = feed(m)
                 await vtime.settle(loop)
@@ -220,7 +225,9 @@ def run_case(case, R):
                     return
                 new_calls = calls[before_calls:]
                 after_state = pairing.description.state_num if pairing.description else None
-                if kind == "regular":
+                if kind in ("regular", "regular-stale"):
+                    if kind == "regular":
+                        high_water = g          # (a number that wrapped past 65535 starts a new epoch)
                     last = g
                     if new_calls:
                         R.fail("C18.unexpected-listener-call", f"{what}: a regular advertisement produced listener calls {new_calls}")
@@ -236,6 +243,15 @@ def run_case(case, R):
                             accept_g = cand
                             accept_pt = pt
                             break
+                if accept_g is not None and accept_g <= high_water:
+                    # authentic, but for a state number that is not newer than one accepted (or advertised) before: the window only reaches it
+                    # because a plain advertisement named an older number in between
+                    if new_calls or after_state != before_state:
+                        R.fail("C18.forged-or-stale-accepted", f"{what}: a notification for state {accept_g} was accepted although state {high_water} had been reached before "
+                               f"(a plain advertisement naming an older state number came in between); listeners {new_calls}, state_num {before_state} -> {after_state}",
+                               kind="after-stale-regular")
+                        return
+                    continue
                 if accept_g is None:
                     if new_calls or after_state != before_state:
                         R.fail("C18.forged-or-stale-accepted", f"{what}: listeners {new_calls}, state_num {before_state} -> {after_state}",
@@ -267,6 +283,7 @@ def run_case(case, R):
                     R.fail("C18.state-not-advanced", f"{what}: state_num is {after_state} after accepting state {accept_g}")
                     return
                 last = accept_g
+                high_water = max(high_water, accept_g)
                 sent.append((accept_g, m))
         ble_pairing_mod.establish_connection = orig_est
     try:
@@ -347,7 +364,7 @@ def run_removed(case, R):
     vtime.run(main)
 
 
-KINDS = ["next", "next", "next", "skip", "beyond", "replay-current", "older", "wrong-key", "wrong-aad", "other-device", "inner-mismatch", "flip", "truncated", "regular"]
+KINDS = ["next", "next", "next", "skip", "beyond", "replay-current", "older", "wrong-key", "wrong-aad", "other-device", "inner-mismatch", "flip", "truncated", "regular", "regular-stale"]
 
 
 @st.composite
@@ -375,6 +392,7 @@ def enum_fixed(tier):
     yield {"g0": 10, "events": hist, "unreachable": True}
     yield {"g0": 65000, "events": hist[:6], "unreachable": True, "cn": 3}
     yield {"g0": 10, "events": hist, "cache_fails": True}
+    yield {"g0": 100, "events": [["next", 1, 1, 0], ["replay-current", 1, 0, 0], ["regular-stale", 0, 0, 9], ["replay-current", 1, 0, 0], ["older", 1, 0, 3], ["skip", 1, 1, 8]]}
     for g0 in (10, 65000):
         yield {"g0": g0, "events": hist, "listeners": True}
         yield {"g0": g0, "events": hist, "twice": True}
